@@ -22881,6 +22881,28 @@ pub mod bench {
 pub mod verif_hooks {
 	use super::*;
 	use bitcoin::hashes::Hash;
+	/// Runs `f` on the funded channel `channel_id` with peer `counterparty` of a real manager.
+	pub fn with_funded_channel<
+		M: chain::Watch<SP::EcdsaSigner>,
+		T: BroadcasterInterface,
+		ES: EntropySource,
+		NS: NodeSigner,
+		SP: SignerProvider,
+		F: FeeEstimator,
+		R: Router,
+		MR: MessageRouter,
+		L: Logger,
+		X,
+		C: FnOnce(&mut FundedChannel<SP>) -> X,
+	>(
+		cm: &ChannelManager<M, T, ES, NS, SP, F, R, MR, L>, counterparty: &PublicKey,
+		channel_id: &ChannelId, f: C,
+	) -> Option<X> {
+		let per_peer_state = cm.per_peer_state.read().unwrap();
+		let mut peer_state = per_peer_state.get(counterparty)?.lock().unwrap();
+		let chan = peer_state.channel_by_id.get_mut(channel_id)?.as_funded_mut()?;
+		Some(f(chan))
+	}
 	/// Calls the real (private) `ChannelManager::can_forward_htlc_should_intercept` on an HTLC /
 	/// next-hop pair built from plain integers.
 	pub fn can_forward_probe<
